@@ -300,6 +300,49 @@ def _check_klatt(case):
     return n, "ok", (src[:3], tuple((a[:2], fs) for a, fs in mods)), viols
 
 
+# ------------------------------------------------------------------ KlattGrids built through the API
+def _check_built(case):
+    """a KlattGrid assembled with addTier (sub-tiers placed by tierIndex, in every insertion order): save -> open keeps the hierarchy"""
+    nform, perm, vi, npts = case
+    vals = VALS[vi:] + VALS[:vi]
+    kg = klattgrid.Klattgrid()
+    kg.addTier(klattgrid.KlattPointTier("pitch", [(0.1, vals[0]), (0.3, vals[1])][:npts], 0, 0.5))
+    kct = klattgrid.KlattContainerTier("oral_formants")
+    k = 2
+    for kitName in ("formants", "bandwidths"):
+        kit = klattgrid.KlattIntermediateTier(kitName)
+        placed = []
+        for i in perm:
+            pts = [(0.1 * (j + 1), vals[(k + j) % len(vals)]) for j in range(npts)]
+            k += npts
+            idx = sum(1 for j in placed if j < i)  # keeps the tier list in ascending formant order
+            kit.addTier(klattgrid.KlattSubPointTier("%s [%d]" % (kitName, i), pts, 0, 0.5), tierIndex=idx)
+            placed.append(i)
+        if kit.tierNameList != ["%s [%d]" % (kitName, i) for i in range(1, nform + 1)]:
+            return 1, "!", None, [Viol("klatt-addTier-index", f"KlattIntermediateTier.addTier(tier, tierIndex) in order {perm}: tier list {kit.tierNameList}")]
+        kct.addTier(kit)
+    kg.addTier(kct)
+    tag = f"KlattGrid built with addTier(tierIndex=...) inserting formants in order {perm}, {npts} points per tier"
+    d0 = dump(kg)
+    out = os.path.join(scratch_dir(), "c19-built.KlattGrid")
+    st, r, _ = call(kg.save, out)
+    if st == "exc":
+        return 1, "X", None, [Viol("save-raised:" + type(r).__name__, f"{tag}: {r!r}")]
+    viols = []
+    m = diff(d0, dump(kg), "in memory after save")
+    if m:
+        viols.append(Viol("save-mutated", f"{tag}: {m}"))
+    st, kg2, _ = call(klattgrid.openKlattgrid, out)
+    if st == "exc":
+        return 2, "X", None, viols + [Viol("reopen-raised:" + type(kg2).__name__, f"{tag}: {kg2!r}")]
+    m = diff(d0, dump(kg2), "after save and reopen")
+    if m:
+        viols.append(Viol("roundtrip", f"{tag}: {m}"))
+    elif not (kg == kg2):
+        viols.append(Viol("roundtrip-eq", f"{tag}: the reopened KlattGrid has the same hierarchy, spans and points but does not compare equal"))
+    return 3, "ok", (nform, perm, npts), viols
+
+
 # ------------------------------------------------------------------ point objects
 PNUM = (0.0, 1.0, 5, 0.1, 1e-05, 1.5e-07, 123456789.12345678, 1e16, 2.5e+20, 0.30000000000000004, 2519.3075148880134)
 
@@ -429,6 +472,11 @@ def parts(tier):
                        "modifications (every addressed tier x 9 functions; all pairs on distinct tiers), save, reopen, compare every span, "
                        "time and value digit for digit, call counts, untouched tiers; non-trivial = distinct (source, modification list)",
                   bounds={"functions": len(FUNCS)}, chunk=4),
+        InputPart("klattgrid-built-through-api",
+                  lambda: ((nform, perm, vi, npts) for nform in (1, 2, 3) for perm in itertools.permutations(range(1, nform + 1))
+                           for vi in range(0, len(VALS), 3) for npts in (0, 1, 2)), _check_built,
+                  rule="KlattGrids assembled through the API (pitch + oral_formants with formants/bandwidths [1..n], n<=3, sub-tiers inserted in "
+                       "every order and placed with addTier(tier, tierIndex)): save -> open yields the same hierarchy, spans, times, values", bounds={}),
         InputPart("point-objects", gen_points, _check_points,
                   rule="all point lists of length 0-%d over %d numbers (integers, 17-digit decimals, exponents) x 3 object classes x 5 "
                        "spans: short form via save/open (class, span, points exactly), long form with/without trailing blanks via an "
